@@ -68,6 +68,10 @@ def check_cfg(ctx, fx, cfg):
         for f, bi, t in graph.all_calls(fx, lambda t: (t.get("callee") or "").endswith("::spawn_future")):
             okc = f["def"] in regs or f["def"].startswith("actor::spawner::SpawnFutures::") or f["def"].startswith("<actor::spawner::")
             ctx.require(okc, "R06.2", "spawn_future-caller:%s@%s" % (f["def"], cfg), "a future is spawned outside the timer registrar", fn=f["def"], site=t["l"])
+    # R06.9 a dead actor is seen as dead: the liveness queries the registry decides on answer "terminated" for every
+    # termination cause, on the first query (shared with C14)
+    from props import c14 as _c14
+    _c14.check_queries(ctx, fx, "R06.9", "@" + cfg)
     # R06.3 child table only in the context
     holders = [a["def"] for a in fx.d["adts"] for fl in a["variants"][0]["fields"] if len(a["variants"]) == 1 and "dyn core::any::Any" in fl["ty"] and a["def"].split("::")[0] != "actor"] if True else []
     # ... held by the Context directly, or through a wrapper type that is the type of the Context's child-table field
